@@ -7,6 +7,7 @@ mod eng_diff;
 mod eng_vec;
 mod eng_adp;
 mod eng_obs;
+mod eng_conc;
 
 use common::*;
 use std::path::PathBuf;
@@ -34,6 +35,7 @@ fn main() {
         "vec" => eng_vec::run(&a, &mut sink),
         "adp" => eng_adp::run(&a, &mut sink),
         "obs" => eng_obs::run(&a, &mut sink, false),
+        "conc" => eng_conc::run(&a, &mut sink),
         "obsasync" => eng_obs::run(&a, &mut sink, true),
         e => {
             eprintln!("unknown engine {e}");
